@@ -583,7 +583,8 @@ impl Since {
                 EpochNumberWithFraction::from_full_value_unchecked(value),
             )),
             //0b0100_0000
-            0x4000_0000_0000_0000 => Some(SinceMetric::Timestamp(value * 1000)),
+            // seconds; a time beyond u64 milliseconds is never reached
+            0x4000_0000_0000_0000 => Some(SinceMetric::Timestamp(value.saturating_mul(1000))),
             _ => None,
         }
     }
@@ -677,7 +678,8 @@ impl<DL: HeaderFieldsProvider> SinceVerifier<DL> {
             match since.extract_metric() {
                 Some(SinceMetric::BlockNumber(block_number)) => {
                     let proposal_window = self.consensus.tx_proposal_window();
-                    if self.tx_env.block_number(proposal_window) < info.block_number + block_number
+                    if self.tx_env.block_number(proposal_window)
+                        < info.block_number.saturating_add(block_number)
                     {
                         return Err((TransactionError::Immature { index }).into());
                     }
@@ -714,7 +716,7 @@ impl<DL: HeaderFieldsProvider> SinceVerifier<DL> {
                         self.parent_median_time(&info.block_hash)
                     };
                     let current_median_time = self.block_median_time(&parent_hash);
-                    if current_median_time < base_timestamp + timestamp {
+                    if current_median_time < base_timestamp.saturating_add(timestamp) {
                         return Err((TransactionError::Immature { index }).into());
                     }
                 }
